@@ -50,19 +50,31 @@ func Ldexp(frac Decimal, exp int) Decimal {
 		return frac
 	}
 
-	if exp < minUnbiasedExponent {
-		return zero(frac.Signbit())
-	}
-
-	if exp > maxUnbiasedExponent+39 {
-		return inf(frac.Signbit())
-	}
-
 	neg := frac.Signbit()
 	fsig, fexp := frac.decompose()
-	fexp += int16(exp)
 
-	sig, exp16 := DefaultRoundingMode.reduce128(neg, fsig, fexp, 0)
+	// frac is between 1e-6176 and 1.3e6145, so scaling by more than 10^12400
+	// in either direction leaves the range whatever frac is; the remaining
+	// exponents are added without overflow.
+	if exp < -2*maxBiasedExponent {
+		return zero(neg)
+	}
+
+	if exp > 2*maxBiasedExponent {
+		return inf(neg)
+	}
+
+	rexp := int(fexp) + exp
+
+	if rexp < minBiasedExponent-2*maxDigits {
+		return zero(neg)
+	}
+
+	if rexp > maxBiasedExponent+2*maxDigits {
+		return inf(neg)
+	}
+
+	sig, exp16 := DefaultRoundingMode.reduce128(neg, fsig, int16(rexp), 0)
 
 	if exp16 > maxBiasedExponent {
 		return inf(neg)
